@@ -4,7 +4,8 @@
    (2) the complete enumeration of the property's bounded universe (Model/EventsUniverse.v)
        inside Coq: forallb ... = true by vm_compute, lifted with forallb_forall. *)
 From Coq Require Import ZArith List Bool Lia.
-From DRF Require Import Base.Regex Base.WordLit Gen.Grammar Model.PathSpec Model.Events Model.EventsUniverse.
+From DRF Require Import Base.Regex Base.WordLit Gen.Grammar Model.PathSpec Model.Events Model.EventsUniverse
+  Proofs.GrammarProofs Proofs.PathSpecProofs.
 Import ListNotations.
 Local Open Scope Z_scope.
 
@@ -308,6 +309,48 @@ Proof.
     rewrite (lift_moves_nonempty p true Hp q c Hq), !classify_table, Hin. reflexivity.
 Qed.
 
+(* ---- named consequences inside the universe, combining the enumeration with the unbounded
+   "a tmp. name is never listable" *)
+Theorem never_tmp_bounded d base f w k :
+  In (d ++ sep :: base, true) u_paths -> ~ In sep base -> starts_with (W "tmp.") base = true ->
+  In f u_flags -> In w u_windows -> nothing_included f = false ->
+  dispatch f (fst w) (snd w) (file_event k (d ++ sep :: base)) = Some Dropped.
+Proof.
+  intros Hp Hn Ht Hf Hw Hi. rewrite (accept_iff_listed_bounded _ f w k Hp Hf Hw), Hi.
+  rewrite (listable_never_tmp f (fst w) (snd w) d base Hn Ht). reflexivity.
+Qed.
+
+Lemma u_moves_first d base : ~ In sep base ->
+  In (d ++ sep :: strip_tmp base, true) (u_moves (d ++ sep :: base)).
+Proof. intro Hn. unfold u_moves. rewrite (split_last_join d base Hn). left. reflexivity. Qed.
+
+Lemma strip_tmp_tmp b : strip_tmp (W "tmp." ++ b) = b.
+Proof. reflexivity. Qed.
+
+(* the writer's finalizing rename  d/tmp.b -> d/b : delivered as the creation of d/b exactly when
+   d/b is listable in the window (and dropped otherwise) *)
+Theorem finalize_is_creation_bounded d b f w :
+  In (d ++ sep :: W "tmp." ++ b, true) u_paths -> ~ In sep b ->
+  In f u_flags -> In w u_windows -> nothing_included f = false ->
+  dispatch f (fst w) (snd w) (moved (d ++ sep :: W "tmp." ++ b) (d ++ sep :: b)) =
+    Some (if listable f (fst w) (snd w) (d ++ sep :: b) then Deliver Created (d ++ sep :: b) [] else Dropped).
+Proof.
+  intros Hp Hn Hf Hw Hi.
+  assert (Hn' : ~ In sep (W "tmp." ++ b)).
+  { intros [H|[H|[H|[H|H]]]]; try discriminate. exact (Hn H). }
+  pose proof (u_moves_first d (W "tmp." ++ b) Hn') as Hq. rewrite strip_tmp_tmp in Hq.
+  rewrite (moved_bounded _ _ _ f w Hp Hq Hf Hw), Hi. f_equal.
+  unfold expected_moved.
+  change (listable_core f None None (linfo_of (d ++ sep :: W "tmp." ++ b)))
+    with (listable f None None (d ++ sep :: W "tmp." ++ b)).
+  rewrite (listable_never_tmp f None None d (W "tmp." ++ b) Hn' eq_refl). cbn [andb].
+  change (listable_core f (fst w) (snd w) (linfo_of (d ++ sep :: b))) with (listable f (fst w) (snd w) (d ++ sep :: b)).
+  change (listable_core f None None (linfo_of (d ++ sep :: b))) with (listable f None None (d ++ sep :: b)).
+  destruct (listable f None None (d ++ sep :: b)) eqn:G.
+  - destruct (listable f (fst w) (snd w) (d ++ sep :: b)); reflexivity.
+  - rewrite (listable_mono f (fst w) (snd w) _ G). reflexivity.
+Qed.
+
 (* outside the claim (case variants, impossible dates) the model at least never raises *)
 Theorem never_raises_bounded p claim f w k :
   In (p, claim) u_paths -> In f u_flags -> In w u_windows ->
@@ -352,5 +395,6 @@ Proof. vm_compute. reflexivity. Qed.
 
 (* documented, outside the claim: the filter is case-insensitive, the listing is not *)
 Example case_insensitive_filter :
-  accepts (mkFlags true true None None) None None Created (W "/w/ch0/2017-07-14T02-00-00/RF@1500000000.000.H5") = true /  listable (mkFlags true true None None) None None (W "/w/ch0/2017-07-14T02-00-00/RF@1500000000.000.H5") = false.
+  accepts (mkFlags true true None None) None None Created (W "/w/ch0/2017-07-14T02-00-00/RF@1500000000.000.H5") = true /\
+  listable (mkFlags true true None None) None None (W "/w/ch0/2017-07-14T02-00-00/RF@1500000000.000.H5") = false.
 Proof. vm_compute. auto. Qed.
